@@ -398,6 +398,11 @@ def run(prog, ctx):
     # middle value of an ordinal feature) gets density 0 for every class when a hat loses its centre, and arg-max returns class 0
     from ..hats import check_hat_centre
     ctx.floor("C19.D9", check_hat_centre(prog, ctx, "C19.D9"), 3, "hat implementations analysed for the centre rule")
+    # ------------------------------------------------------------------ D10 (shared with C18.D7): re-applying the learning-time scaling to a
+    # DataSet the user hands in must not write into the user's arrays (a DataSet keeps the arrays it was built from by reference): the
+    # second evaluation of the same array would be shifted / scaled twice
+    from .C18 import check_no_inplace_on_shared_arrays
+    check_no_inplace_on_shared_arrays(prog, ctx, ds, "C19.D10")
 
     # ------------------------------------------------------------------ D6
     n6 = 0
